@@ -30,7 +30,29 @@ func TestC14Parse(t *testing.T) {
 			ds = gen.BigDescriptors(t, 4095, "big")
 			rec.Class("loop>=1000_bytes")
 		}
+		// VBI data services with a reserved id may carry any number of reserved bytes; the value does not keep them
+		ref.VBIReservedBytes = rapid.IntRange(0, 4).Draw(t, "vbireserved")
+		total := 0
+		for _, d := range ds {
+			l := len(ref.DescriptorBody(d))
+			total += 2 + l
+			if l > 255 {
+				total = 1 << 20
+			}
+		}
+		if total > 0xfff {
+			ref.VBIReservedBytes = 1 // would not fit: keep the single reserved byte the generator counted with
+		}
+		for _, d := range ds {
+			if d.VBIData != nil {
+				d.Length = uint8(len(ref.DescriptorBody(d)))
+			}
+		}
 		enc := ref.EncodeDescriptorLoop(ds)
+		if ref.VBIReservedBytes != 1 {
+			rec.Class("vbi_reserved_services_with_0_or_2..4_reserved_bytes")
+		}
+		ref.VBIReservedBytes = 1
 		// bytes after the loop must not be touched
 		buf := append(append([]byte{}, enc...), 0xde, 0xad, 0xbe, 0xef)
 		got, off, err := astits.VerifParseDescriptors(buf)
